@@ -167,26 +167,23 @@ printf("debug> #if eval_operation()  operator=%d  num1=%d  num2=%d\n", oper, num
   return -1;
 }
 
-static int is_num(char *value)
+// The value of a define that is a number: decimal, 0x hex or leading 0 octal
+// as the tokenizer reads them, white space around it ignored (macros get
+// an extra space at the end).
+static int get_num(char *value, int *num)
 {
   char *s = value;
+  char *end;
 
-  while (*s != 0)
-  {
-    // If there is white space at the end of the value then remove it.
-    // This is due to do adding an extra space at the end of macros.. should
-    // probably change this.
-    if (*s == ' ' && s != value)
-    {
-      while (*s == ' ') { s++; }
-      return (*s == 0) ? 1 : 0;
-    }
+  while (*s == ' ') { s++; }
 
-    if (*s < '0' || *s > '9') { return 0; }
-    s++;
-  }
+  if (*s < '0' || *s > '9') { return 0; }
 
-  return 1;
+  *num = (int)strtoul(s, &end, 0);
+
+  while (*end == ' ') { end++; }
+
+  return (*end == 0) ? 1 : 0;
 }
 
 static int parse_ifdef_expression(
@@ -327,9 +324,8 @@ printf("debug> #if: parse_defined()=%d\n", n);
           n = symbols_entry->address;
         }
           else
-        if (value != NULL && param_count == 0 && is_num(value))
+        if (value != NULL && param_count == 0 && get_num(value, &n))
         {
-          n = atoi(value);
         }
           else
         {
